@@ -172,6 +172,97 @@ def template_canon(rel_under_templates, text, repo):
 # --------------------------------------------------------------------------- facts
 
 
+def desugar_bool_match(root):
+    """`match c { true => A, false => B }` (either order, `_` for the second arm) is rewritten in place as `if c { A } else { B }`: the two spellings are one
+    construct for every rule"""
+    st = [root]
+    while st:
+        x = st.pop()
+        if isinstance(x, list):
+            st.extend(v for v in x if isinstance(v, (dict, list)))
+            continue
+        if x.get("k") == "match" and isinstance(x.get("arms"), list) and len(x["arms"]) == 2 and not any(a.get("g") for a in x["arms"]):
+            p0, p1 = x["arms"][0]["pat"], x["arms"][1]["pat"]
+            def lit_bool(p):
+                return p.get("v") if isinstance(p, dict) and p.get("k") == "lit" and isinstance(p.get("v"), bool) else None
+            b0, b1 = lit_bool(p0), lit_bool(p1)
+            if b0 is not None and (b1 == (not b0) or (b1 is None and isinstance(p1, dict) and p1.get("k") == "wild")):
+                t_arm, e_arm = (x["arms"][0], x["arms"][1]) if b0 else (x["arms"][1], x["arms"][0])
+                def as_block(b):
+                    b_ = b
+                    return b_ if isinstance(b_, dict) and b_.get("k") == "block" else {"k": "block", "s": [], "e": b_, "ln": x.get("ln")}
+                new = {"k": "if", "c": x["s"], "t": as_block(t_arm["b"]), "e": as_block(e_arm["b"]), "ln": x.get("ln"), "was_match": True}
+                for key in ("nv", "ty"):
+                    if key in x:
+                        new[key] = x[key]
+                x.clear()
+                x.update(new)
+        st.extend(v for v in x.values() if isinstance(v, (dict, list)))
+    annotate_matches_conditions(root)
+
+
+def _bool_match(e):
+    """e (through macro wrappers) is `match s { P.. => true/false, .. }` (what `matches!` expands to): the match node, else None"""
+    for _ in range(6):
+        if not isinstance(e, dict):
+            return None
+        if e.get("k") == "macro":
+            e = e.get("inner")
+            continue
+        if e.get("k") == "block" and not e.get("s") and isinstance(e.get("e"), dict):
+            e = e["e"]
+            continue
+        break
+    if isinstance(e, dict) and e.get("k") == "match" and e.get("arms") and all(
+            isinstance(a.get("b"), dict) and a["b"].get("k") == "lit" and isinstance(a["b"].get("v"), bool) for a in e["arms"]):
+        return e
+    return None
+
+
+def annotate_matches_conditions(root):
+    """`if matches!(x, P) {T} else {E}` -- also with the test bound to a local first (`let w = matches!(x, P); if w {T}`) or negated -- gets the
+    equivalent `match x { P => T, _ => E }` attached as n["cm"]; iflet_as_match() hands it out, so rules that read variant-selected arms see the three
+    spellings alike"""
+    lets = {}
+    nodes = []
+    st = [root]
+    while st:
+        x = st.pop()
+        if isinstance(x, list):
+            st.extend(v for v in x if isinstance(v, (dict, list)))
+            continue
+        k = x.get("k")
+        if k == "letst" and isinstance(x.get("pat"), dict) and x["pat"].get("k") == "bind" and "Mut" not in (x["pat"].get("mode") or "") and x.get("init") is not None:
+            bm = _bool_match(x["init"])
+            if bm is not None:
+                lets[x["pat"].get("id")] = bm
+        elif k == "if":
+            nodes.append(x)
+        st.extend(v for v in x.values() if isinstance(v, (dict, list)))
+    for n in nodes:
+        c = n.get("c")
+        neg = False
+        for _ in range(6):
+            if isinstance(c, dict) and c.get("k") == "un" and c.get("op") == "Not":
+                neg = not neg
+                c = c.get("e")
+            elif isinstance(c, dict) and c.get("k") in ("paren", "type", "use") and isinstance(c.get("e"), dict):
+                c = c["e"]
+            else:
+                break
+        bm = _bool_match(c)
+        if bm is None and isinstance(c, dict) and c.get("k") == "local":
+            bm = lets.get(c.get("id"))
+        if bm is None:
+            continue
+        t_, e_ = n["t"], n.get("e") or {"k": "tup", "a": []}
+        arms = []
+        for a in bm["arms"]:
+            val = a["b"]["v"] != neg
+            arms.append({"pat": a["pat"], "g": a.get("g"), "b": t_ if val else e_})
+        n["cm"] = {"k": "match", "s": bm.get("s"), "sty": bm.get("sty"), "sadt": bm.get("sadt"), "ln": n.get("ln"), "arms": arms, "synthetic": True}
+
+
 class Unit:
     def __init__(self, name, data):
         self.name = name
@@ -182,6 +273,10 @@ class Unit:
             # closures may repeat paths; keep first, store all in list
             self.fns.setdefault(f["path"], f)
         self.fn_list = data["fns"]
+        for f in data["fns"]:
+            if f.get("hir") and not f.get("_desugared"):
+                desugar_bool_match(f["hir"])
+                f["_desugared"] = True
         self.norm = {}
         for f in data["fns"]:
             self.norm.setdefault(norm_path(f["path"]), f)
@@ -327,7 +422,7 @@ def children(n):
         return
     k = n.get("k")
     for key, v in n.items():
-        if key in ("pat", "params", "sub", "alts"):
+        if key in ("pat", "params", "sub", "alts", "cm"):
             continue
         if key == "arms":
             for a in v:
@@ -416,6 +511,98 @@ def macro_strings(m):
     for mm in _STR_RE.finditer(src):
         out.append(bytes(mm.group(1), "utf-8").decode("unicode_escape", errors="replace") if "\\" in mm.group(1) else mm.group(1))
     return out
+
+
+def _split_top(s_, sep=","):
+    out, depth, cur, q = [], 0, [], None
+    i = 0
+    while i < len(s_):
+        ch = s_[i]
+        if q:
+            cur.append(ch)
+            if ch == "\\" and i + 1 < len(s_):
+                cur.append(s_[i + 1])
+                i += 1
+            elif ch == q:
+                q = None
+        elif ch == '"':
+            q = ch
+            cur.append(ch)
+        elif ch in "([{":
+            depth += 1
+            cur.append(ch)
+        elif ch in ")]}":
+            depth -= 1
+            cur.append(ch)
+        elif ch == sep and depth == 0:
+            out.append("".join(cur))
+            cur = []
+        else:
+            cur.append(ch)
+        i += 1
+    if "".join(cur).strip():
+        out.append("".join(cur))
+    return out
+
+
+def macro_fmt_canon(m):
+    """Format string of a format!-like macro call with every placeholder spelled as `{<argument text>}` -- positional (`{}`, `{0}`), named (`{x}` with
+    `x = e`) and inline-captured (`{x}`) spellings of the same formatting give the same string.  None when the call has no format string."""
+    src = m.get("src", "")
+    i = src.find("(")
+    j = src.rfind(")")
+    if i < 0:
+        i, j = src.find("["), src.rfind("]")
+    if i < 0:
+        i, j = src.find("{"), src.rfind("}")
+    if i < 0 or j <= i:
+        return None
+    args = [a.strip() for a in _split_top(src[i + 1:j])]
+    k = next((n_ for n_, a in enumerate(args) if a.startswith('"') or a.startswith('r"') or a.startswith('r#"')), None)
+    if k is None:
+        return None
+    mm = _STR_RE.search(args[k])
+    if not mm:
+        return None
+    fmt = mm.group(1)
+    pos, named = [], {}
+    for a in args[k + 1:]:
+        m2 = re.match(r"^([A-Za-z_]\w*)\s*=(?!=)\s*(.*)$", a, re.S)
+        if m2:
+            named[m2.group(1)] = re.sub(r"\s+", " ", m2.group(2).strip())
+        else:
+            pos.append(re.sub(r"\s+", " ", a))
+    out, nxt, p = [], 0, 0
+    while p < len(fmt):
+        ch = fmt[p]
+        if ch == "{" and fmt[p + 1:p + 2] == "{":
+            out.append("{{")
+            p += 2
+            continue
+        if ch == "}" and fmt[p + 1:p + 2] == "}":
+            out.append("}}")
+            p += 2
+            continue
+        if ch == "{":
+            e = fmt.find("}", p)
+            if e < 0:
+                return None
+            inner = fmt[p + 1:e]
+            nm, _, spec = inner.partition(":")
+            nm = nm.strip()
+            if nm == "":
+                txt = pos[nxt] if nxt < len(pos) else "?"
+                nxt += 1
+            elif nm.isdigit():
+                txt = pos[int(nm)] if int(nm) < len(pos) else "?"
+            else:
+                txt = named.get(nm, nm)
+            out.append("{" + txt + ((":" + spec) if spec else "") + "}")
+            p = e + 1
+            continue
+        out.append(ch)
+        p += 1
+    return "".join(out)
 
 
 PANIC_MACROS = {"panic", "unreachable", "unimplemented", "todo", "assert", "assert_eq", "assert_ne", "debug_assert",
@@ -715,6 +902,8 @@ def iflet_as_match(n):
         return {"k": "match", "sty": c.get("ity"), "s": c["init"], "ln": n.get("ln"),
                 "arms": [{"pat": c["pat"], "g": None, "b": n["t"]},
                          {"pat": {"k": "wild"}, "g": None, "b": n.get("e") or {"k": "tup", "a": []}}]}
+    if n.get("k") == "if" and n.get("cm"):
+        return n["cm"]
     return None
 
 
@@ -1851,6 +2040,22 @@ def with_conditions(node, stack=()):
     for c in children(node):
         for r in with_conditions(c, stack):
             yield r
+
+
+def asserted(stack, pred):
+    """True when some `if` entry of a with_conditions stack asserts -- on this path -- a condition whose un-negated core satisfies pred (the `t` branch of
+    `if c`, the `e` branch / the code after `if !c { diverge }` of `if !c`)"""
+    for ent in stack:
+        if ent[0] != "if":
+            continue
+        c, br = strip(ent[1]), ent[2]
+        neg = False
+        while isinstance(c, dict) and c.get("k") == "un" and c.get("op") == "Not":
+            neg = not neg
+            c = strip(c["e"])
+        if isinstance(c, dict) and pred(c) and ((br == "t") != neg):
+            return True
+    return False
 
 
 def with_conditions_inl(unit, node, stack=(), depth=2, _seen=None, max_nodes=1500):
